@@ -171,6 +171,9 @@ def check_glasso(ctx, cases):
         zero = [[z for _, z in row] for row in vals]
         entries = [(f"group_linear_prox_grad[{nm}]", (lambda g=g: pg.group_linear_prox_grad(g, W.copy(), alpha)))
                    for nm, g in group_variants(c["gs"])]
+        if np.all(W == np.round(W)):            # weights stored as integers: the result is still the real-valued minimiser
+            Wi = W.astype(np.int64)
+            entries.append(("group_linear_prox_grad[int64 input]", lambda: pg.group_linear_prox_grad(list(group_variants(c["gs"]))[0][1], Wi.copy(), alpha)))
         if all(len(g) == 1 for g in c["gs"]):
             entries.append(("linear_prox_grad", lambda: pg.linear_prox_grad(W.copy(), alpha)))
         for label, f in entries:
@@ -198,9 +201,15 @@ def check_ghier(ctx, cases):
         zT = [[x[0] == 0 for x in row] for row in c["T"]]
         entries = [(f"group_mlp_prox_grad[{nm}]", (lambda g=g: pg.group_mlp_prox_grad(g, V.copy(), U.copy(), alpha, M)))
                    for nm, g in group_variants(c["gs"])]
+        if np.all(V == np.round(V)) and np.all(U == np.round(U)):
+            Vi, Ui = V.astype(np.int64), U.astype(np.int64)
+            entries.append(("group_mlp_prox_grad[int64 input]", lambda: pg.group_mlp_prox_grad(list(group_variants(c["gs"]))[0][1], Vi.copy(), Ui.copy(), alpha, M)))
+            entries.append(("mlp_prox_grad[int64 input, per group]", None))
         if all(len(g) == 1 for g in c["gs"]):
             entries.append(("mlp_prox_grad", lambda: pg.mlp_prox_grad(V.copy(), U.copy(), alpha, M)))
         for label, f in entries:
+            if f is None:
+                continue
             bad = []
             try:
                 with np.errstate(all="ignore"):
